@@ -11,7 +11,8 @@ def main():
         x = float.fromhex(c["amount"])
         r = {}
         try:
-            inv = rd.Inventory({c["nuc"]: x}, c["unit"])
+            cls = rd.InventoryHP if c.get("hp") else rd.Inventory
+            inv = cls({c["nuc"]: x}, c["unit"])
             r["num"] = float(inv.numbers()[c["nuc"]]).hex()
             k = c["kind"]
             if k == "activity":
@@ -26,7 +27,7 @@ def main():
             else:
                 r["back"] = r["num"]; r["base"] = r["num"]
             # add / subtract through the same unit
-            inv2 = rd.Inventory({c["nuc"]: x}, c["unit"])
+            inv2 = cls({c["nuc"]: x}, c["unit"])
             inv2.add({c["nuc"]: x}, c["unit"])
             r["add"] = float(inv2.numbers()[c["nuc"]]).hex()
             inv2.subtract({c["nuc"]: x}, c["unit"])
